@@ -360,6 +360,61 @@ def check_radix(prog, rep):
     return n
 
 
+
+# ------------------------------------------------------------------ SETTER-invalidate
+def _setters(ci):
+    out = {}
+    for st in ci.node.body:
+        if isinstance(st, ast.FunctionDef):
+            for d in st.decorator_list:
+                u = unparse(d)
+                if u.endswith('.setter'):
+                    out[st.name] = st
+    return out
+
+
+def check_setter_invalidation(prog, rep):
+    """A property setter of a subclass that replaces the setter of its base (without calling it)
+    has to drop every cache the base setter drops: attributes the base setter resets to a constant
+    (`self._mps_sites_cache = None`) hold values derived from the old state of the property."""
+    ct = prog.classtable()
+    n = 0
+    for ci in ct.all:
+        if (ci.module.relpath if hasattr(ci.module, 'relpath') else ci.module) != LAT:
+            continue
+        own = _setters(ci)
+        for name, f in own.items():
+            base_f = None
+            for b in ci.mro[1:]:
+                bs = _setters(b)
+                if name in bs:
+                    base_f = bs[name]
+                    break
+            if base_f is None:
+                continue
+            if any(isinstance(x, ast.Attribute) and x.attr in ('fset', '__set__')
+                   for x in ast.walk(f)):
+                continue  # delegates to the base setter
+            resets = {}
+            for st in base_f.body:
+                if isinstance(st, ast.Assign) and len(st.targets) == 1 and is_self_attr(
+                        st.targets[0]) and isinstance(st.value, ast.Constant):
+                    resets[st.targets[0].attr] = st
+            assigned = {t.attr for x in ast.walk(f) if isinstance(x, ast.Assign)
+                        for t in x.targets if is_self_attr(t)}
+            n += 1
+            rep.instance('SETTER-invalidate', {'class': ci.name, 'property': name,
+                                               'base_resets': sorted(resets),
+                                               'assigned': sorted(assigned & set(resets))})
+            for a in sorted(set(resets) - assigned):
+                rep.violation('SETTER-invalidate', ci.module, '%s.%s' % (ci.name, name),
+                              'cache-kept:' + a,
+                              'the setter of `%s` replaces the one of the base class, which drops '
+                              'the cache `%s`; this one keeps it: values derived from the old %s '
+                              'are served after the property changed' % (name, a, name), f.lineno)
+    return n
+
+
 def run(prog, rep, tier):
     rep.rule('GEOM-neighbors', 'for every lattice class with literal basis / positions / pair '
              'lists: all pairs of a category have one Euclidean length, category k is the k-th '
@@ -379,6 +434,10 @@ def run(prog, rep, tier):
     if check_derived_refresh(prog, rep) < 2:
         raise AnalysisError('GEOM-derived-refresh: writers of HelicalLattice._N_cells not found')
     check_box_corner(prog, rep)
+    rep.rule('SETTER-invalidate', 'a property setter that replaces the base setter drops every cache '
+             'the base setter drops')
+    if check_setter_invalidation(prog, rep) < 2:
+        raise AnalysisError('SETTER-invalidate: the order setters of IrregularLattice / HelicalLattice not found')
     rep.rule('GEOM-query-pure', 'the query ordering() leaves the index maps of the lattice unchanged '
              '(temporary stores are restored)')
     if check_query_pure(prog, rep) < 5:
